@@ -1598,6 +1598,42 @@ def check_C20(ctx):
     nvec = len(blocks)
     # ---- the discoverer's line buffer: lines of every length around every size the buffer can have ----
     discoverer_family(ctx, rng, "asan")
+    # ---- what cgreen-runner says when it has to give up names the file it could not load: a message of any length ----
+    rimpl = build_impl(ctx, asan=True, runner=True, tag="asan-runner")
+    bdir = os.path.join(ctx.work, "unloadable"); os.makedirs(bdir)
+    bsrc = os.path.join(bdir, "u.c")
+    open(bsrc, "w").write('#include <cgreen/cgreen.h>\nextern void cgreen_verif_no_such_function(void);\nEnsure(uses_it) { cgreen_verif_no_such_function(); assert_that(1, is_equal_to(1)); }\n')
+    r = sh(["gcc", "-shared", "-fPIC", "-w", f"-I{REPO}/include", bsrc, "-o", os.path.join(bdir, "libunloadable_tests.so"), f"-L{rimpl['dir']}", "-lcgreen"])
+    if r.returncode != 0:
+        raise BuildError("test library: " + r.stdout[-1500:])
+    npanic = 0
+    for plen in ([40, 300, 470, 520, 1100, 3000] if ctx.tier == "quick" else [40, 200, 300, 400, 450, 470, 480, 490, 500, 520, 700, 990, 1100, 2000, 3000, 3900]):
+        d = os.path.join(ctx.work, "pp")
+        rel = ""
+        while len(rel) < plen:
+            rel = os.path.join(rel, "d" * min(200, plen - len(rel)))
+        os.makedirs(os.path.join(d, rel), exist_ok=True)
+        shutil.copy(os.path.join(bdir, "libunloadable_tests.so"), os.path.join(d, rel, "libunloadable_tests.so"))
+        r = subprocess.run([rimpl["runner"], os.path.join(rel, "libunloadable_tests.so")], cwd=d, stdout=subprocess.PIPE, stderr=subprocess.PIPE,
+                           env=asan_env({"LD_LIBRARY_PATH": rimpl["dir"]}), timeout=120)
+        err = r.stderr.decode("latin-1")
+        npanic += 1
+        L = len(os.path.join(rel, "libunloadable_tests.so"))
+        if "ERROR: AddressSanitizer" in err or "runtime error" in err or r.returncode in (98, 99) or r.returncode < 0:
+            ctx.violation(f"[C20] a library that cannot be loaded, under a path of {L} characters: undefined behaviour in cgreen-runner while it reports that (exit {r.returncode}): " +
+                          " ".join(l.strip() for l in err.split("\n") if "ERROR" in l or "SUMMARY" in l or re.match(r"\s*#[0-3] ", l))[:300],
+                          f"# a shared library with an undefined symbol, copied to a relative path of {L} characters\ncgreen-runner <path>/libunloadable_tests.so", found_input=True,
+                          facts={"crash": True, "where": "panic", "what": "long message"})
+            shutil.rmtree(d, ignore_errors=True)
+            break
+        if r.returncode == 0 or "libunloadable_tests.so" not in err + r.stdout.decode("latin-1"):
+            ctx.violation(f"[C20] a library that cannot be loaded, under a path of {L} characters: cgreen-runner exits with {r.returncode} and " +
+                          ("does not name the library" if r.returncode != 0 else "reports success"),
+                          f"cgreen-runner <a relative path of {L} characters>/libunloadable_tests.so", found_input=True, facts={"where": "panic", "what": "long message"})
+            shutil.rmtree(d, ignore_errors=True)
+            break
+        shutil.rmtree(d, ignore_errors=True)
+    ctx.coverage["unloadable_library_path_lengths"] = npanic
     # ---- names, nesting, counts under every reporter, sanitizers on ----
     bench = Bench(ctx, asan=True)
     scens, labels = [], []
